@@ -1,6 +1,6 @@
 """C02 — every value produced is in range; out-of-range results are RangeErrors (structural clauses)."""
 from ._std import *
-from ..rules import typestate
+from ..rules import intervals, typestate
 from ..rules.common import hir_walk, node_line, fold, find_trait_fn
 
 EXPLANATION = (
@@ -200,6 +200,28 @@ def check_limit_tables(run, fx, rs):
                   "is_valid_day_range compares with %s using %s" % (lits, ops), dr.loc)
 
 
+def narrowing(run, fx):
+    rule = "R9.lossy-narrowing"
+    run.rule(rule, "no numeric cast silently changes a caller-controlled value: a float->integer or integer->integer cast whose "
+                   "operand is an exactly known caller-controlled range must be able to represent that whole range (otherwise "
+                   "the value saturates or wraps and a different, in-range result is produced instead of a RangeError)")
+    res = intervals.results(fx)
+    sites = [x for x in res["sites"] if x["kind"] == "narrowing"]
+    run.analysed["narrowing_casts"] = len(sites)
+    if len(sites) < 100:
+        run.anchor_missing(rule, "coverage", "only %d numeric casts analysed (expected >= 100)" % len(sites))
+    for x in sites:
+        key = "%s/cast#%d" % (x["fn"].replace("temporal_rs::", ""), x["ordinal"])
+        loc = "%s:%s" % (x["file"], x["fn_line"])
+        if x["status"] == 2:
+            chain = " > ".join(c.replace("temporal_rs::", "").replace("builtins::core::", "") for c in x["chain"])
+            run.bad(rule, key, "%s  [reached through: %s]" % (x["text"], chain), loc)
+        elif x["status"] == 0:
+            run.ok(rule, key, "the target type represents every value of the operand", loc)
+        else:
+            run.ok(rule, key, "operand of unknown provenance: not reported", loc, nontrivial=False)
+
+
 def main(tier):
     run, fx = start("C02", tier)
     rs = fx["temporal_rs"]
@@ -210,4 +232,5 @@ def main(tier):
     run.assumptions += ["the trusted-producer table in tlint/rules/typestate.py (from_epoch_nanos of a valid instant)",
                         "values that already have a guarded type satisfy its invariant (this is what the rule establishes "
                         "inductively for every producer)"]
+    narrowing(run, fx)
     return run.finish(EXPLANATION)
